@@ -5,14 +5,20 @@ Decided (see DESIGN.md section 3, C01):
          normal path; add() only inserts values returned by bind()/bind_all(); bind()s return
          BoundRoute(...); every normal path of BoundRoute.__init__ passes check_middlewares and
          make_middleware_chain, whose result is the only value ever stored in _execute, which is the
-         callable execute() injects into; the preprovided set is url | builtins | resources;
+         callable execute() injects into; the preprovided set is url | builtins | resources; execute() offers the whole of
+         self.resources and passes its call-time parameters on unfiltered (what binding counted as available is there per request);
+         the stack handed to make_middleware_chain is every middleware of the route and of the binding application and nothing
+         else: merge_middlewares loses none and builds a list of its own (the application's list is not the accumulator);
   R01.b  unresolved => NameError (three make_chain results, two 'next' tests); the NameError is what the caller gets:
          building its message cannot itself raise (every % / .format gets the number of values it takes -- a tuple
          operand of run-time length, followed through make_chain's return, is spread over the conversions);
   R01.c  exact set arithmetic of chain_argspec / make_chain (truth tables over symbolic atoms);
   R01.d  per-phase availability sets and pairing of function lists with provides lists;
-  R01.e  all consumers of a signature enumerate the same parameters; parameter-kind table;
-  R01.f  chain_argspec and the code generator are level-aligned.
+  R01.e  all consumers of a signature enumerate the same parameters; parameter-kind table; the signature of a bound method lacks
+         ``self`` whatever the state of its instance (the drop in get_fb is guarded by what f *is*, not by the truth value of
+         ``f.__self__``);
+  R01.f  chain_argspec and the code generator are level-aligned; make_chain hands the function list and the provides tuples on as
+         declared (order-preserving copies only).
 Declined: that every accepted configuration serves every request (needs CPython introspection of
 arbitrary callables); the undocumented cycle check.
 """
@@ -55,20 +61,33 @@ def check_eager_binding(rep, rule):
     if ok:
         rp = ai.params()[1]
 
-        def all_routes(e, depth=0, rebinding=False):
-            """``e`` is the routes argument (every entry of it, in order), possibly defaulted to an empty list."""
+        def all_routes(e, depth=0, rebinding=False, seen=None):
+            """``e`` is the routes argument (every entry of it, in order), possibly defaulted to an empty list.  ``seen``: for a
+            local re-bound in straight-line code, how many of its bindings lie before the point of view."""
+            seen = seen or {}
             if isinstance(e, ast.Call) and call_name(e) in ('list', 'tuple', 'iter') and len(e.args) == 1 and not e.keywords:
-                return all_routes(e.args[0], depth, rebinding)
+                return all_routes(e.args[0], depth, rebinding, seen)
             if isinstance(e, ast.BoolOp) and isinstance(e.op, ast.Or) and len(e.values) == 2:
                 d = e.values[1]
-                return all_routes(e.values[0], depth, rebinding) and ((isinstance(d, (ast.List, ast.Tuple)) and not d.elts) or
-                                                                      (isinstance(d, ast.Call) and call_name(d) in ('list', 'tuple') and not d.args))
+                return all_routes(e.values[0], depth, rebinding, seen) and ((isinstance(d, (ast.List, ast.Tuple)) and not d.elts) or
+                                                                            (isinstance(d, ast.Call) and call_name(d) in ('list', 'tuple') and not d.args))
             if isinstance(e, ast.Name):
                 vals = [v for st_, v, idx in assigned_value(ai.node, e.id)]
                 if e.id == rp:
                     # the parameter; re-bound only from itself (routes = routes or [])
                     return rebinding or all(all_routes(v, depth + 1, True) for v in vals)
-                return depth < 3 and len(vals) == 1 and all_routes(vals[0], depth + 1, rebinding)
+                if len(vals) > 1 or e.id in seen:
+                    # re-bound in straight-line code before the loop (``r = routes`` / ``r = r or []``): the last binding counts,
+                    # and what it reads of the local itself is the binding before it
+                    body = ai.node.body
+                    idx = [i for i, s_ in enumerate(body) if s_ is loops[0]]
+                    tops = [s_ for s_ in (body[:idx[0]] if idx else []) if isinstance(s_, ast.Assign) and len(s_.targets) == 1 and
+                            isinstance(s_.targets[0], ast.Name) and s_.targets[0].id == e.id]
+                    n = seen.get(e.id, len(tops))
+                    if len(tops) != len(vals) or n < 1 or depth >= 4:
+                        return False
+                    return all_routes(tops[n - 1].value, depth + 1, rebinding, dict(seen, **{e.id: n - 1}))
+                return depth < 3 and len(vals) == 1 and all_routes(vals[0], depth + 1, rebinding, seen)
             return False
         ok = all_routes(loops[0].iter)
         # the add call itself is unconditional in the loop body
@@ -238,6 +257,8 @@ def run(rep):
     rep.rule('R01.f', 'sequence normal forms: both consumers see funcs++[final]; codegen recursion is aligned')
     g = rep.guard
     g(check_eager_binding, rep, 'R01.a')
+    g(chain.check_execute_offers_provided, rep, 'R01.a')
+    g(chain.check_merge_complete, rep, 'R01.a')
     g(chain.check_unresolved_raises, rep, 'R01.b')
     g(chain.check_chain_argspec, rep, 'R01.c')
     g(chain.check_make_chain, rep, 'R01.c', 'R01.f')
